@@ -1865,4 +1865,91 @@ theorem applyEvent_matchCount (br : BR) (ev : Event) (w : World) (exp : Exp) (he
   · exact matchCount_map br w observed (fun _ => rfl) pres_observed
   · exact absurd rfl hev
 
+/-! ## the creation expectation -/
+
+theorem canaryCreate_len (c : Cfg) (br : BR) (s : S) :
+    ((canaryCreate c br s).1.w.deps.length = s.w.deps.length) ∨
+    (¬ (s.exp = .pending ∧ c.timedOut = false) ∧ (canaryCreate c br s).1.exp = .pending) := by
+  unfold canaryCreate
+  split
+  · left; rfl
+  · split
+    · left; rfl
+    · rename_i hb
+      have hb' : ¬ (s.exp = .pending ∧ c.timedOut = false) := by simpa using hb
+      dsimp only
+      split
+      · left; rfl
+      · split
+        · left; rfl
+        · split
+          · left; rfl
+          · split
+            · left; rfl
+            · right; exact ⟨hb', rfl⟩
+
+theorem initTail_len (c : Cfg) (br : BR) (s : S) (st : Dep) :
+    ((initTail c br s st).1.w.deps.length = s.w.deps.length) ∨
+    (¬ (s.exp = .pending ∧ c.timedOut = false) ∧ (initTail c br s st).1.exp = .pending) := by
+  unfold initTail
+  have h := canaryCreate_len c br s
+  generalize canaryCreate c br s = r4 at h ⊢
+  obtain ⟨s4, o4⟩ := r4
+  dsimp only at h
+  cases o4 <;> dsimp only
+  · split <;> exact h
+  all_goals exact h
+
+theorem modify_length (w : World) (id : Nat) (f : Dep → Dep) : (w.modify id f).deps.length = w.deps.length := by
+  unfold World.modify; simp
+
+theorem planeInitialize_len (c : Cfg) (br : BR) (w : World) (exp : Exp) :
+    ((planeInitialize c br (S0 w exp)).1.w.deps.length = w.deps.length) ∨
+    (¬ (exp = .pending ∧ c.timedOut = false) ∧ (planeInitialize c br (S0 w exp)).1.exp = .pending) := by
+  unfold planeInitialize
+  have hb := buildStable_spec c br (S0 w exp)
+  generalize buildStable c br (S0 w exp) = r1 at hb ⊢
+  obtain ⟨s1, o1⟩ := r1
+  simp only [S0] at hb
+  obtain ⟨hw1, he1, hca1, _, _, _, _⟩ := hb
+  cases o1 with
+  | fail x => left; dsimp only; rw [hw1]
+  | ok st0 =>
+    dsimp only
+    have hi := stableInitialize_spec c br s1 st0
+    generalize stableInitialize c br s1 st0 = r2 at hi ⊢
+    obtain ⟨s2, o2⟩ := r2
+    simp only at hi
+    obtain ⟨hw2, he2, _, hca2, _, _⟩ := hi
+    have hlen2 : s2.w.deps.length = w.deps.length := by
+      rcases hw2 with h | ⟨_, h⟩
+      · rw [h, hw1]
+      · rw [h, modify_length, hw1]
+    cases o2
+    case err => left; exact hlen2
+    case notFound => left; exact hlen2
+    case panic => left; exact hlen2
+    case ok =>
+      dsimp only
+      have hcan2 : s2.canary = none := by rw [hca2, hca1]
+      have hc := buildCanary_spec c br s2 hcan2
+      generalize buildCanary c br s2 = r3 at hc ⊢
+      obtain ⟨s3, o3⟩ := r3
+      simp only at hc
+      obtain ⟨hw3, he3, _, _, _, _, _⟩ := hc
+      have hexp3 : s3.exp = exp := by rw [he3, he2, he1]
+      have hlen3 : s3.w.deps.length = w.deps.length := by rw [hw3, hlen2]
+      have tail : ((initTail c br s3 st0).1.w.deps.length = w.deps.length) ∨
+          (¬ (exp = .pending ∧ c.timedOut = false) ∧ (initTail c br s3 st0).1.exp = .pending) := by
+        rcases initTail_len c br s3 st0 with h | h
+        · left; rw [h, hlen3]
+        · right; rw [hexp3] at h; exact h
+      cases o3 with
+      | ok cd => exact tail
+      | fail x =>
+        cases x
+        case err => left; exact hlen3
+        case panic => left; exact hlen3
+        all_goals exact tail
+
 end RV.CtlCanary
